@@ -287,15 +287,7 @@ func safeprimeGenerateRule(P *Program, R *Report) {
 		want := tsum(tmul(tconst(2), tsym("SetBytes(makeslice)")), tconst(1))
 		R.decide(rule, kSPGen+":term", "the returned value is 2*q + 1 for the candidate q decoded from the random bytes", t.equal(want), "got "+t.String(), P.Pos(r.Pos()))
 	}
-	okSize := false
-	allInstrs(fn, func(i ssa.Instruction) {
-		if ms, ok := i.(*ssa.MakeSlice); ok {
-			if a, ok := affineOf(ms.Len); ok && (a.String() == "(arg#0+6)/8" || a.String() == "(6+arg#0)/8") {
-				okSize = true
-			}
-		}
-	})
-	R.decide(rule, kSPGen+":candidate-size", "q is decoded from ceil((bitsize-1)/8) bytes", okSize, "", P.Pos(fn.Pos()))
+	candidateSizeRule(P, R, rule, fn)
 	probablySafePrimeRule(P, R, rule)
 }
 
@@ -665,6 +657,7 @@ func goroutineProtocolRule(P *Program, R *Report, rule string) {
 	}
 	// goroutine bodies
 	var bodies []*ssa.Function
+	var gos []*ssa.Go
 	goOf := map[*ssa.Function]*ssa.Go{}
 	inLoop := map[*ssa.Function]bool{}
 	var loopBound ssa.Value
@@ -673,6 +666,7 @@ func goroutineProtocolRule(P *Program, R *Report, rule string) {
 		if !ok {
 			return
 		}
+		gos = append(gos, g)
 		var f *ssa.Function
 		if mc, ok := g.Call.Value.(*ssa.MakeClosure); ok {
 			f = mc.Fn.(*ssa.Function)
@@ -699,6 +693,23 @@ func goroutineProtocolRule(P *Program, R *Report, rule string) {
 			}
 		}
 	})
+	// at least one worker is started: the count is GOMAXPROCS(0) itself (always >= 1) or a positive constant - a count
+	// that can be zero (GOMAXPROCS-1, NumCPU/2) leaves the caller waiting forever on a single-CPU machine
+	okCount := false
+	countD := ""
+	if loopBound != nil {
+		if a, ok := affineOf(loopBound); ok {
+			countD = a.String()
+			if a.isConst() {
+				okCount = a.C >= 1
+			} else if len(a.S) == 1 && a.C >= 0 {
+				for sym, k := range a.S {
+					okCount = k >= 1 && sym == "call:runtime.GOMAXPROCS(0)"
+				}
+			}
+		}
+	}
+	R.decide(rule, kGenConc+":workers>=1", "at least one worker goroutine is started whatever the machine (count = GOMAXPROCS(0) plus a non-negative constant, or a positive constant)", okCount, "count = "+countD, P.Pos(fn.Pos()))
 	R.decide(rule, kGenConc+":goroutines", "the watcher and the worker goroutines were found", len(bodies) == 2, fmt.Sprintf("%d go statements", len(bodies)), P.Pos(fn.Pos()))
 	// channel capacities by variable name (captured variables) and by value (channels handed to a named worker)
 	caps := map[string]ssa.Value{}
@@ -975,4 +986,17 @@ func disabledStub(P *Program, R *Report, rule, key string, fn *ssa.Function) boo
 	}
 	R.ok(rule, key+":disabled-in-this-configuration", "the function is an unconditional panic in "+P.Config+" (generation compiled out): nothing is returned, no goroutine is started")
 	return true
+}
+
+// candidateSizeRule: safeprime.Generate decodes its candidate q from ceil((bitsize-1)/8) random bytes.
+func candidateSizeRule(P *Program, R *Report, rule string, fn *ssa.Function) {
+	okSize := false
+	allInstrs(fn, func(i ssa.Instruction) {
+		if ms, ok := i.(*ssa.MakeSlice); ok {
+			if a, ok := affineOf(ms.Len); ok && (a.String() == "(arg#0+6)/8" || a.String() == "(6+arg#0)/8") {
+				okSize = true
+			}
+		}
+	})
+	R.decide(rule, kSPGen+":candidate-size", "q is decoded from ceil((bitsize-1)/8) bytes", okSize, "", P.Pos(fn.Pos()))
 }
